@@ -127,6 +127,12 @@ theorem exists_cons_of_ne_nil {α : Type} (l : List α) (h : l ≠ []) : ∃ a t
 theorem natDigits_cons (n : Nat) : ∃ c rest, natDigits n = c :: rest :=
   exists_cons_of_ne_nil _ (natDigits_ne_nil n)
 
+theorem coeff_zexp (d : D128) : d.coeff * 10 ^ zexp d = d.coeff * 10 ^ d.exp.toNat := by
+  unfold zexp
+  split
+  · next h => rw [h]; simp
+  · rfl
+
 /-- the expected rendering has the shape `-?[0-9]+(\.[0-9]+)?` -/
 theorem plainSpec_isPlain (d : D128) : isPlain (plainSpec d) = true := by
   obtain ⟨c, rest, hcr⟩ := natDigits_cons d.coeff
@@ -134,10 +140,10 @@ theorem plainSpec_isPlain (d : D128) : isPlain (plainSpec d) = true := by
   rw [plainSpec_eq d c rest hcr]
   by_cases h0 : d.exp ≥ 0
   · rw [if_pos h0]
-    have : signOf d.neg ++ c :: rest ++ zeros d.exp.toNat = signOf d.neg ++ c :: (rest ++ zeros d.exp.toNat) := by simp
+    have : signOf d.neg ++ c :: rest ++ zeros (zexp d) = signOf d.neg ++ c :: (rest ++ zeros (zexp d)) := by simp
     rw [this]
     apply isPlain_int
-    have := hds.append (allDigits_zeros d.exp.toNat)
+    have := hds.append (allDigits_zeros (zexp d))
     simpa using this
   · rw [if_neg h0]
     by_cases hf : (-d.exp).toNat < rest.length + 1
@@ -176,22 +182,23 @@ theorem plainSpec_isPlain (d : D128) : isPlain (plainSpec d) = true := by
 `coeff` with `-exp` fraction digits -/
 theorem plainSpec_value (d : D128) :
     plainValue (plainSpec d) = some (d.neg, d.coeff * 10 ^ d.exp.toNat, (-d.exp).toNat) := by
+  rw [← coeff_zexp d]
   obtain ⟨c, rest, hcr⟩ := natDigits_cons d.coeff
   have hds : AllDigits (c :: rest) := hcr ▸ allDigits_natDigits d.coeff
   have hval : readNat (c :: rest) = d.coeff := hcr ▸ readNat_natDigits d.coeff
   rw [plainSpec_eq d c rest hcr]
   by_cases h0 : d.exp ≥ 0
   · rw [if_pos h0]
-    have e1 : signOf d.neg ++ c :: rest ++ zeros d.exp.toNat = signOf d.neg ++ c :: (rest ++ zeros d.exp.toNat) := by simp
+    have e1 : signOf d.neg ++ c :: rest ++ zeros (zexp d) = signOf d.neg ++ c :: (rest ++ zeros (zexp d)) := by simp
     rw [e1, plainValue_int]
-    · have e2 : c :: (rest ++ zeros d.exp.toNat) = (c :: rest) ++ zeros d.exp.toNat := by simp
+    · have e2 : c :: (rest ++ zeros (zexp d)) = (c :: rest) ++ zeros (zexp d) := by simp
       rw [e2, readNat_append_zeros, hval]
       have : (-d.exp).toNat = 0 := by omega
       rw [this]
-    · have := hds.append (allDigits_zeros d.exp.toNat)
+    · have := hds.append (allDigits_zeros (zexp d))
       simpa using this
   · rw [if_neg h0]
-    have hz : d.exp.toNat = 0 := by omega
+    have hz : (zexp d) = 0 := by unfold zexp; split <;> omega
     rw [hz, Nat.pow_zero, Nat.mul_one]
     by_cases hf : (-d.exp).toNat < rest.length + 1
     · rw [if_pos hf]
@@ -236,28 +243,25 @@ theorem plainSpec_value (d : D128) :
         exact (allDigits_zeros _).append hds
 
 /-- the expected rendering is a JSON number, except for a zero with positive exponent -/
-theorem plainSpec_json (d : D128) (hz : zeroPosExp d = false) : isJsonNumber (plainSpec d) = true := by
+theorem plainSpec_json (d : D128) : isJsonNumber (plainSpec d) = true := by
   obtain ⟨c, rest, hcr⟩ := natDigits_cons d.coeff
   have hds : AllDigits (c :: rest) := hcr ▸ allDigits_natDigits d.coeff
   rw [plainSpec_eq d c rest hcr]
   by_cases h0 : d.exp ≥ 0
   · rw [if_pos h0]
-    have e1 : signOf d.neg ++ c :: rest ++ zeros d.exp.toNat = signOf d.neg ++ c :: (rest ++ zeros d.exp.toNat) := by simp
+    have e1 : signOf d.neg ++ c :: rest ++ zeros (zexp d) = signOf d.neg ++ c :: (rest ++ zeros (zexp d)) := by simp
     rw [e1]
     apply isJson_int
-    · have := hds.append (allDigits_zeros d.exp.toNat)
+    · have := hds.append (allDigits_zeros (zexp d))
       simpa using this
     · by_cases hc0 : d.coeff = 0
-      · -- zero: the exponent must be 0
-        have hexp : d.exp = 0 := by
-          unfold zeroPosExp at hz
-          simp [hc0] at hz
-          omega
+      · -- zero: no zeros are appended
+        have hzx : zexp d = 0 := by unfold zexp; rw [if_pos hc0]
         have : natDigits d.coeff = ['0'] := by rw [hc0]; rfl
         rw [hcr] at this
         injection this with h1 h2
         subst h1; subst h2
-        rw [hexp]; rfl
+        rw [hzx]; rfl
       · obtain ⟨c', rest', hc', hne⟩ := natDigits_head d.coeff hc0
         rw [hcr] at hc'
         injection hc' with h1 h2
